@@ -102,3 +102,47 @@ func checkC19(c *Ctx) {
 	}
 	c.Floor["R19.1"] = 25
 }
+
+// c19WriteSide (R19.1 shared): the write side of the formatting buffer (what every encoder appends through) agrees
+// with bytes.Buffer: a record is the bytes appended, in order, nothing else.
+var c19WriteMethods = []string{"Write", "WriteString", "WriteByte", "WriteRune", "Truncate", "Grow", "Reset", "Len", "Bytes", "String"}
+
+func c19WriteSide(c *Ctx, p *Prog) {
+	r := c.R
+	bp := p.Pkg("bytes")
+	if bp == nil {
+		r.Unk("R19.1", "bytes", "-", "standard library package bytes not loaded")
+		return
+	}
+	ic := newIso(p, map[string]string{"PrintCtx": "Buffer"})
+	done := map[*ssa.Function]bool{}
+	cmp := func(fa, fb *ssa.Function) {
+		if done[fa] {
+			return
+		}
+		done[fa] = true
+		key := "pair:" + shortName(fa) + "~" + fb.String()
+		if d := ic.compare(fa, fb); d != "" {
+			r.Bad("R19.1", key, p.FuncPos(fa), "not isomorphic to %s: %s — the formatting buffer no longer appends like bytes.Buffer, so a record is not the bytes the encoder wrote", fb, d)
+		} else {
+			r.Ok("R19.1", key, p.FuncPos(fa), "isomorphic (%d blocks)", len(fa.Blocks))
+		}
+	}
+	for _, mn := range c19WriteMethods {
+		fa := p.Method(p.Slog, "PrintCtx", mn)
+		fb := p.Method(bp, "Buffer", mn)
+		if fa == nil || fb == nil {
+			r.Bad("R19.1", "pair:PrintCtx."+mn, "-", "method missing (repo: %v, bytes.Buffer: %v)", fa != nil, fb != nil)
+			continue
+		}
+		ic.fnPairs[fa] = fb
+		cmp(fa, fb)
+	}
+	for len(ic.queue) > 0 {
+		pr := ic.queue[0]
+		ic.queue = ic.queue[1:]
+		if pr[0].Pkg == p.Slog {
+			cmp(pr[0], pr[1])
+		}
+	}
+}
